@@ -392,6 +392,26 @@ pub fn gen_mean(rng: &mut Rng, tier: &Tier) -> Vec<Case> {
             cases.push(c);
         }
     }
+    // machine integers whose window sums all fit while larger intermediate sums would not: every sample lies within
+    // +-(i64::MAX / N), so any N consecutive samples sum within range (the arithmetic the property prescribes -
+    // subtract the evicted sample, then add the new one - never leaves it either); "the sample type's own
+    // arithmetic" includes its bounds (debug profile: overflow panics)
+    for &n in WIDTHS.iter() {
+        for _ in 0..tier.n(10, 100) {
+            let bound = i64::MAX / n as i64;
+            let mut c = vec![format!("new 1 mean N={} T=i64", n)];
+            for _ in 0..rng.range(n as i64 + 1, 3 * n as i64 + 3) {
+                let x = match rng.below(4) {
+                    0 => bound,
+                    1 => bound - rng.range(0, 1000),
+                    2 => -(bound - rng.range(0, 1000)),
+                    _ => rng.range(-1000, 1000),
+                };
+                c.push(format!("f 1 {}", x));
+            }
+            cases.push(c);
+        }
+    }
     // finite memory: two histories that agree on the last N samples continue identically
     for &n in &[1usize, 2, 3, 5] {
         for _ in 0..tier.n(20, 200) {
@@ -598,6 +618,35 @@ pub fn gen_alphabeta(rng: &mut Rng, tier: &Tier) -> Vec<Case> {
         for _ in 0..rng.range(1, 7) {
             c.push(format!("f 1 {}", v));
         }
+        cases.push(c);
+    }
+    // samples that hit the filter's own prediction exactly (zero residual) while the velocity is non-zero, mixed
+    // with ordinary samples; locked trackers (alpha = beta = 1) on ramps; dyadic gains
+    use crate::q::Q;
+    for _ in 0..tier.n(150, 1500) {
+        let (a, b) = match rng.below(3) {
+            0 => (Q::int(1), Q::int(1)),
+            1 => (Q::new(1, 2), *rng.pick(&[Q::new(1, 2), Q::new(1, 8), Q::int(1)])),
+            _ => (Q::new(rng.range(-8, 8) as i128, 4), Q::new(rng.range(-8, 8) as i128, 8)),
+        };
+        let mut c = vec![format!("new 1 alphabeta alpha={} beta={}", a, b)];
+        let mut st: Option<(Q, Q)> = None; // (position, velocity) of the textbook recurrence
+        for _ in 0..rng.range(3, 10) {
+            let x = match st {
+                Some((p, v)) if rng.chance(1, 2) => p + v,
+                _ => Q::int(rng.range(-6, 6)),
+            };
+            st = Some(match st {
+                None => (x, Q::int(0)),
+                Some((p, v)) => {
+                    let pred = p + v;
+                    let r = x - pred;
+                    (pred + a * r, v + b * r)
+                }
+            });
+            c.push(format!("f 1 {}", x));
+        }
+        c.push("guts 1 velocity".into());
         cases.push(c);
     }
     cases
@@ -925,10 +974,95 @@ fn with_lifecycle(cases: Vec<Case>, rng: &mut Rng) -> Vec<Case> {
     out
 }
 
+/// Value coincidences: "fast paths" and skipped updates hide behind a sample that happens to equal something the
+/// filter holds or just produced (the evicted sample, the running mean, the prediction, the previous output). A
+/// fraction of the plain single-instance exact-rational cases is re-run on the real filter while some of their
+/// samples are replaced by: the previous output, an earlier input, the linear extrapolation of the last two
+/// outputs (a tracker's prediction), or the sum of the last few inputs. Any input is a legitimate input, so this
+/// only steers the workload; a variant on which the filter panics or the rationals overflow is dropped.
+fn with_coincidences(cases: Vec<Case>, rng: &mut Rng) -> Vec<Case> {
+    use crate::q::Q;
+    use crate::val::{parse_val, Val};
+    let as_q = |s: &str| -> Option<Q> {
+        let ok = !s.is_empty()
+            && s.split('/').count() <= 2
+            && s.split('/').all(|t| !t.is_empty() && t.trim_start_matches('-').chars().all(|ch| ch.is_ascii_digit()) && t != "-");
+        if !ok {
+            return None;
+        }
+        match parse_val(s) {
+            Val::Q(q) => Some(q),
+            _ => None,
+        }
+    };
+    let mut out = Vec::with_capacity(cases.len() + cases.len() / 4);
+    for c in cases {
+        let eligible = c.len() > 2
+            && c[0].starts_with("new 1 ")
+            && c[1..].iter().all(|l| {
+                let t: Vec<&str> = l.split(' ').collect();
+                match t[0] {
+                    "f" => t.len() == 3 && t[1] == "1" && as_q(t[2]).is_some(),
+                    "acc" | "guts" | "cfg" | "reset" => t.get(1) == Some(&"1"),
+                    _ => false,
+                }
+            });
+        if !eligible || !rng.chance(1, 4) {
+            out.push(c);
+            continue;
+        }
+        let mut it = Interp::default();
+        let mut v = vec![c[0].clone()];
+        let mut ok = it.exec(&c[0]).is_ok();
+        let (mut ins, mut outs): (Vec<Q>, Vec<Q>) = (Vec::new(), Vec::new());
+        for l in &c[1..] {
+            if !ok {
+                break;
+            }
+            let mut line = l.clone();
+            if l.starts_with("f ") && !ins.is_empty() && rng.chance(2, 5) {
+                let cand = match rng.below(4) {
+                    0 => outs.last().copied(),
+                    1 => Some(ins[rng.below(ins.len() as u64) as usize]),
+                    2 if outs.len() >= 2 => Some(outs[outs.len() - 1] + (outs[outs.len() - 1] - outs[outs.len() - 2])),
+                    _ => {
+                        let k = (rng.range(1, 4) as usize).min(ins.len());
+                        Some(ins[ins.len() - k..].iter().fold(Q::int(0), |a, b| a + *b))
+                    }
+                };
+                if let Some(x) = cand {
+                    line = format!("f 1 {}", x);
+                }
+            }
+            match it.exec(&line) {
+                Ok(r) => {
+                    if line.starts_with("f ") {
+                        ins.push(as_q(line.split(' ').nth(2).unwrap()).unwrap());
+                        if let Some(y) = as_q(r.trim()) {
+                            outs.push(y);
+                        }
+                    } else if line.starts_with("reset ") {
+                        ins.clear();
+                        outs.clear();
+                    }
+                    v.push(line);
+                }
+                Err(_) => ok = false,
+            }
+        }
+        out.push(c);
+        if ok {
+            out.push(v);
+        }
+    }
+    out
+}
+
 pub fn generate(prop: &str, rng: &mut Rng, tier: &Tier) -> Vec<Case> {
     let cases = generate_plain(prop, rng, tier);
     match prop {
         "C02" | "C03" | "C04" | "C05" | "C05p" | "C06" | "C08" | "C09" | "C13" | "C14" | "C15" | "C16" | "C17" | "C18" => {
+            let cases = with_coincidences(cases, rng);
             with_lifecycle(cases, rng)
         }
         _ => cases,
